@@ -247,6 +247,9 @@ func (e *specEnv) lvalue(x Expr) *Ptr {
 			return u.ptrFromRef(v.t, v.typ.Underlying().(*types.Pointer).Elem())
 		}
 	case *EIdent:
+		if p, ok := e.freeCells[n.Name]; ok {
+			return p
+		}
 		v := e.eval(n, nil)
 		if v.ptr != nil {
 			return v.ptr
